@@ -146,8 +146,28 @@ def class_specs(draw, name, earlier, allow_hooks=True):
         c['defaults_override'] = {q['n']: draw(_scalar_default(q['t']))}
     if kind == 'abstract':
         c['registered'] = draw(st.sampled_from([True, True, False]))
+    # the documented idiom for container defaults: Optional[List[..]] = None (or Any = None)
+    # with _yatiml_defaults = {'name': []} and a sweeten that removes defaulted attributes
+    if kind == 'regular' and draw(st.integers(0, 5)) == 0:
+        free = [nm for nm in ('tags', 'table') if nm not in used and nm not in [q['n'] for q in params]]
+        if free:
+            params.append({'n': free[0], 'd': {'v': None}, 't': draw(st.sampled_from(
+                [['opt', ['list', 'str']], ['opt', ['list', 'any']], ['opt', ['dict', 'any']],
+                 ['opt', ['dict', 'any']], ['opt', ['dict', 'int']]]))})
+    cparams = [q for q in params if q['d'] is not None and q['d']['v'] is None
+               and (q['t'][1][0] if isinstance(q['t'], list) and isinstance(q['t'][1], list) else None)
+               in ('list', 'dict')]
+    container_defaults = False
+    if cparams and draw(st.integers(0, 1)) == 0:
+        ov = dict(c.get('defaults_override') or {})
+        for q in cparams:
+            ov[q['n']] = [] if q['t'][1][0] == 'list' else {}
+        c['defaults_override'] = ov
+        container_defaults = True
     if allow_hooks:
         h = draw(st.integers(0, 9))
+        if container_defaults and h not in (0, 1) and draw(st.integers(0, 3)) != 0:
+            h = 3
         if h == 0:
             c['sav'] = 'dashes'
             if draw(st.booleans()):
@@ -240,7 +260,34 @@ def strs():
         st.text(alphabet='abcxyz_- ', min_size=1, max_size=8))
 
 
-def plain_data(depth=2):
+# keys an Any-typed position may legally hold besides strings: YAML writes all of
+# them (a tuple as a complex key), a load builds the scalar ones and rejects the tuple
+ODD_KEYS = [{'k': 'int', 'v': 1}, {'k': 'int', 'v': 7}, {'k': 'float', 'v': '1.5'}, {'k': 'none'},
+            {'k': 'bool', 'v': True},
+            {'k': 'tuple', 'v': [{'k': 'int', 'v': 1}, {'k': 'int', 'v': 2}]},
+            {'k': 'tuple', 'v': [{'k': 'int', 'v': 3}, {'k': 'str', 'v': 'a'}]},
+            {'k': 'tuple', 'v': []}]
+
+
+@st.composite
+def _plain_dicts(draw, sub, odd):
+    n = draw(st.integers(0, 3))
+    out, seen = [], set()
+    for _ in range(n):
+        if odd and draw(st.integers(0, 2)) != 0:
+            key = draw(st.sampled_from(ODD_KEYS))
+        else:
+            key = draw(st.sampled_from(['k1', 'k2', 'a b', '\u00e9', '1']))
+        if repr(key) in seen:
+            continue
+        seen.add(repr(key))
+        out.append([key, draw(sub)])
+    return {'k': 'dict', 'v': out}
+
+
+def plain_data(depth=2, odd=None):
+    """Plain data for Any-typed positions.  odd=None: one dict in eight (per level)
+    uses non-string keys; odd=True: most keys are non-string (ints, None, tuples)."""
     leaf = st.one_of(
         st.builds(lambda v: {'k': 'int', 'v': v}, st.integers(-10 ** 6, 10 ** 6)),
         st.builds(lambda v: {'k': 'str', 'v': v}, strs()),
@@ -250,12 +297,46 @@ def plain_data(depth=2):
                   st.floats(allow_nan=True, allow_infinity=True, width=64)))
     if depth <= 0:
         return leaf
-    sub = plain_data(depth - 1)
+    if depth >= 2 and odd is None:
+        # (as TRICKY_STR for strings: a few fixed structures among the random ones)
+        return st.one_of([_plain_data(depth, odd)] * 9 + [st.sampled_from(TRICKY_DATA)])
+    return _plain_data(depth, odd)
+
+
+def _T(*xs):
+    return {'k': 'tuple', 'v': [{'k': 'int', 'v': x} if isinstance(x, int) else {'k': 'str', 'v': x} for x in xs]}
+
+
+def _Sv(x):
+    return {'k': 'str', 'v': x}
+
+
+# plain data that YAML writes without complaint and that a load cannot (fully) build,
+# or that is built in several deferred steps: complex keys at two levels, a complex key
+# after a nested mapping, empty containers inside containers
+TRICKY_DATA = [
+    {'k': 'dict', 'v': [['by_pair', {'k': 'dict', 'v': [[_T(1, 2), _Sv('a')]]}], [_T(3, 4), _Sv('b')]]},
+    {'k': 'list', 'v': [{'k': 'list', 'v': [{'k': 'dict', 'v': [[_T(1, 2), _Sv('a')]]}]},
+                        {'k': 'dict', 'v': [[_T(3, 4), _Sv('b')]]}]},
+    {'k': 'dict', 'v': [[_T(1, 2), {'k': 'dict', 'v': [[_T(3, 4), _Sv('x')]]}]]},
+    {'k': 'dict', 'v': [['a', {'k': 'dict', 'v': []}], ['b', {'k': 'list', 'v': [{'k': 'list', 'v': []}]}]]},
+    {'k': 'dict', 'v': [[{'k': 'int', 'v': 1}, _Sv('one')], ['1', _Sv('also one')]]},
+    {'k': 'list', 'v': [_T(), _T(1), {'k': 'dict', 'v': [[{'k': 'none'}, {'k': 'none'}]]}]},
+]
+
+
+def _plain_data(depth, odd):
+    leaf = plain_data(0)
+    sub = plain_data(depth - 1, odd)
+    dicts = _plain_dicts(sub, False)
+    if odd:
+        dicts = _plain_dicts(sub, True)
+    elif odd is None:
+        dicts = st.one_of([_plain_dicts(sub, False)] * 7 + [_plain_dicts(plain_data(depth - 1, True), True)])
     return st.one_of(
         leaf, leaf,
         st.builds(lambda v: {'k': 'list', 'v': v}, st.lists(sub, max_size=3)),
-        st.builds(lambda v: {'k': 'dict', 'v': [[k, x] for k, x in v.items()]},
-                  st.dictionaries(st.sampled_from(['k1', 'k2', 'a b', 'é', '1']), sub, max_size=3)))
+        dicts)
 
 
 @st.composite
@@ -334,7 +415,20 @@ def values(draw, spec, t, depth=2):
                 return {'k': 'dict', 'v': []}
         cc = draw(st.sampled_from(cands))
         attrs = []
+        ov = cc.get('defaults_override') or {}
         for p in U.all_params(spec, cc):
+            if isinstance(ov.get(p['n']), (list, dict)):
+                # an attribute with a container default: equal to it, absent, holding one of
+                # the tricky structures (when its items are Any-typed), or anything
+                r = draw(st.integers(0, 4))
+                kd = 'list' if isinstance(ov[p['n']], list) else 'dict'
+                if r == 0:
+                    attrs.append([p['n'], {'k': kd, 'v': []}])
+                    continue
+                if r == 1 and p['t'][1][1] == 'any':
+                    x = draw(st.sampled_from(TRICKY_DATA))
+                    attrs.append([p['n'], {'k': kd, 'v': [x] if kd == 'list' else [['k1', x]]}])
+                    continue
             if p['d'] is not None and draw(st.booleans()):
                 continue
             attrs.append([p['n'], draw(values(spec, p['t'], depth - 1))])
